@@ -151,6 +151,11 @@ ASSUME TLCSet(1, 0)
 DiagView == <<init, sock, listening, dbLock, dpc, hasdb, conns, closedc, backlog, spc, sconn, tries, nsp, crashes, bad, tv>>
 Names == (IF ConnectedIsLive THEN <<>> ELSE <<"ConnectedIsLive">>) \o (IF OneServerPerSocket THEN <<>> ELSE <<"OneServerPerSocket">>)
          \o (IF ServeWhileClients THEN <<>> ELSE <<"ServeWhileClients">>) \o (IF RemoveOnlyOwn THEN <<>> ELSE <<"RemoveOnlyOwn">>)
-RaceNo == Trace[CHOOSE i \in 1..Len(Trace) : Trace[i].ev = "Init" /\ i < l /\ \A j \in (i + 1)..(l - 1) : Trace[j].ev # "Init"].n
+RaceNo == IF l = 1 THEN 0 ELSE Trace[CHOOSE i \in 1..Len(Trace) : Trace[i].ev = "Init" /\ i < l /\ \A j \in (i + 1)..(l - 1) : Trace[j].ev # "Init"].n
+\* per-race high-water marks (registers 1000 + race number), reported by the Diag postcondition
+ASSUME \A i \in 0..400 : TLCSet(1000 + i, 0)
+RaceHW == l > Len(Trace) \/ TLCSet(1000 + RaceNo, IF TLCGet(1000 + RaceNo) > l THEN TLCGet(1000 + RaceNo) ELSE l)
+DiagC == Safe /\ HW /\ RaceHW
+DiagAccepted == Accepted /\ \A i \in 1..Trace[Len(Trace)].n : PrintT(<<"RHW", i, TLCGet(1000 + i)>>)
 EmitViol == Safe \/ PrintT(ToJson([kind |-> "viol", race |-> RaceNo, init |-> init, inv |-> Names, at |-> l, steps |-> hist]))
 =============================================================================
